@@ -3,9 +3,10 @@
 // fresh key published with its chain and the trust anchors as one file set.
 //
 // Two scenario families run against the REAL package, in-process:
-//   - readiness: operations run/get/getp/ready/readyc/cancel/rel/ok/fail/step/run2/q executed from
-//     different goroutines in a forced order (hook spiffe.svid.afterRLock parks a reader holding the
-//     read lock; the fake issuer holds the request until told to answer);
+//   - readiness: operations run/get/getp/ready/readyc/cancel/rel/ok/fail/step/run2/stoprun/q executed
+//     from different goroutines in a forced order (hook spiffe.svid.afterRLock parks a reader holding
+//     the read lock; the fake issuer holds the request until told to answer — also when the context of
+//     the fetch, Run's own, is ended meanwhile by stoprun or inside the issuer callback);
 //   - renewal: Run on a fake clock with a scripted issuer (validity windows from seconds to years,
 //     already past half-life, not yet valid; failures; malformed answers), clock steps from
 //     milliseconds to hours, optional write directory and changing trust anchors.
@@ -397,7 +398,7 @@ func main() {
 		return
 	}
 	f := lib.ParseFlags()
-	res := lib.NewResult("non-trivial — readiness: a consumer call is made before the issuer answers the initial request, or a reader is parked at the hook holding the read lock, or Run is held between close(readyCh) and Unlock; renewal: at least two issuer requests (a renewal or retry happened); bundle source: a reader or Watch call is made before the source is up. COMPLETE ENUMERATIONS (every run): all orders of first calls of Run/issuer answer/GetX509SVID/Ready for the listed (gets, readys) shapes x issuer ok/fail x {readers parked, not parked, Run held}; all orders of first calls of Run/file appearing/bundle/anchors/watch for the listed shapes; renewal small scope = every script over {short, past-half-life, fail, fail with an error wrapping context.DeadlineExceeded} and every step sequence over {5 s, 10 s, 60 s, 1 h, exact wake} up to the tier's depth; the error-kind family = every error kind of errkinds.go (plain; wrapping / joining / custom Is / Unwrap of context.Canceled and context.DeadlineExceeded; the bare sentinels; the Err() of a child context the issuer created itself and waited for; look-alikes) x renewal index 1..P x 1..M consecutive failures with exact wakes, x coarse steps, x held answers, x as the initial fetch, x as the trust-anchor source's error, while Run's context stays alive; plus the fixed lists. SEEDED RANDOM (not exhaustive): random readiness op sequences, random renewal scenarios, random bundle-source scenarios — hence exhaustive=false overall. traces_validated_against_impl counts model queries: one per executed scenario (its observed trace / run compared with the Lean driver) plus the 3 corpus traces recorded on the pre-fix tree (checked against both model variants but not executions, so it exceeds evaluations by 3)")
+	res := lib.NewResult("non-trivial — readiness: a consumer call is made before the issuer answers the initial request, or a reader is parked at the hook holding the read lock, or Run is held between close(readyCh) and Unlock, or the scenario ends Run's own context (before Run is called / while the initial request is in flight / inside the issuer callback as it returns / after the answer / while Run is held); renewal: at least two issuer requests (a renewal or retry happened); bundle source: a reader or Watch call is made before the source is up. COMPLETE ENUMERATIONS (every run): all orders of first calls of Run/issuer answer/GetX509SVID/Ready for the listed (gets, readys) shapes x issuer ok/fail x {readers parked, not parked, Run held}; the Run-ctx-done family of ctxfam.go = every skeleton (ctx ended before Run / in flight / as the issuer returns / after the answer / while Run is held; control: ctx alive but the error looks like a context error) x initial answer {ok, plain error, the ctx's own Err() bare and wrapped, ...} x every placement of GetX509SVID / Ready (own live context) / a parked GetX509SVID over the positions of the skeleton, both orders, ctx cancelled or deadline passed; all orders of first calls of Run/file appearing/bundle/anchors/watch for the listed shapes; renewal small scope = every script over {short, past-half-life, fail, fail with an error wrapping context.DeadlineExceeded} and every step sequence over {5 s, 10 s, 60 s, 1 h, exact wake} up to the tier's depth; the error-kind family = every error kind of errkinds.go (plain; wrapping / joining / custom Is / Unwrap of context.Canceled and context.DeadlineExceeded; the bare sentinels; the Err() of a child context the issuer created itself and waited for; look-alikes) x renewal index 1..P x 1..M consecutive failures with exact wakes, x coarse steps, x held answers, x as the initial fetch, x as the trust-anchor source's error, while Run's context stays alive; plus the fixed lists. SEEDED RANDOM (not exhaustive): random readiness op sequences, random renewal scenarios, random bundle-source scenarios — hence exhaustive=false overall. traces_validated_against_impl counts model queries: one per executed scenario (its observed trace / run compared with the Lean driver) plus the 3 corpus traces recorded on the pre-fix tree and the 8 corpus traces recorded with Run's ctx done (checked against the model but not executions, so it exceeds evaluations by 11)")
 	if f.Work == "" {
 		f.Work, _ = os.MkdirTemp("", "c19-")
 		defer os.RemoveAll(f.Work)
@@ -455,6 +456,28 @@ func main() {
 		}
 	} else {
 		res.Note("corpus/C19 not readable: " + err.Error())
+	}
+
+	// ---- corpus: traces recorded with Run's ctx done — on a tree with the change "no close(readyCh)
+	// when the initial fetch fails during a shutdown" (must be rejected by the model of the code as it
+	// is) and on the unchanged tree (must be accepted)
+	if b, err := os.ReadFile(filepath.Join(os.Getenv("VERIF_DIR"), "corpus", "C19", "run-ctx-done.case")); err == nil {
+		for _, ln := range strings.Split(string(b), "\n") {
+			ln = strings.TrimSpace(ln)
+			want, tr, ok := strings.Cut(ln, " ")
+			if ln == "" || strings.HasPrefix(ln, "#") || !ok || (want != "accept" && want != "reject") {
+				continue
+			}
+			if a, ok := r.ask("lts v=fixed ev=" + tr); ok {
+				res.Traces++
+				res.Hit("corpus:run-ctx-done-trace-" + want)
+				if strings.HasPrefix(a, "accept") != (want == "accept") {
+					res.Disagree("recorded trace with Run's ctx done vs model variant fixed", tr, a, "must "+want)
+				}
+			}
+		}
+	} else {
+		res.Note("corpus/C19/run-ctx-done.case not readable: " + err.Error())
 	}
 
 	// ---- readiness: every order of first calls
